@@ -32,7 +32,9 @@ RxInit ==
     ghost |-> [i \in {} |-> NoGhost], lock |-> FALSE, pend |-> NoPend, sess |-> [i \in {} |-> NoSess],
     \* user-supplied CRC calculators (driver custcrc): the receiver's / the sender's calculator returns the
     \* complement of the standard CRC
-    inv |-> FALSE, txinv |-> FALSE ]
+    inv |-> FALSE, txinv |-> FALSE,
+    \* C19: the last peek on a packet produced by the encapsulator, compared with what decap then does with it
+    peek |-> [valid |-> FALSE, bytes |-> <<>>, res |-> [t |-> "none"]] ]
 
 RxBegin(e) ==
   [ RxInit EXCEPT !.mgr = IF Has(e, "rx") THEN MgrOf(e.rx.mgr) ELSE NoMgr,
@@ -183,9 +185,20 @@ JudgeDecapQ(e, rx, q, crc) ==
                  \/ Cardinality(vanished) = 1 /\ \A i \in vanished : claims(i)
       outTag == IF np /\ Has(r, "out_tag") THEN r.out_tag ELSE 0
       owned2 == IF outTag > 0 THEN rx.owned \cup {outTag} ELSE rx.owned
+      \* C19 "these always equal the fragment id and label decap associates with the same packet"
+      pk     == rx.peek
+      peeked == pk.valid /\ pk.bytes = b
+      takeOps == {i \in 1..Len(e.memops) : e.memops[i].op = "take_frag"}
+      peekAgrees ==
+        /\ (peeked /\ hasMeta /\ isStart /\ pk.res.t = "label" => r.meta.label = pk.res.label)
+        /\ (peeked /\ hasMeta /\ isStart /\ pk.res.t = "err" => w.lt = "ru")
+        /\ (peeked /\ hasMeta /\ isStart => pk.res.t # "fragid")
+        /\ (peeked /\ np /\ pk.res.t = "fragid" => \A i \in takeOps : e.memops[i].id = pk.res.id)
+        /\ (peeked /\ hasMeta /\ kind \in {"inter", "end"} => pk.res.t = "fragid")
       \* ------------------------------------------------------------ verdicts
       verdicts ==
-           V(np, IF inj THEN <<"C05", "C08">> ELSE <<"C05">>, "Rx.NoPanic")
+           V(peekAgrees, <<"C19">>, "Peek.AgreesWithDecap")
+        \cup V(np, IF inj THEN <<"C05", "C08">> ELSE <<"C05">>, "Rx.NoPanic")
         \cup V(np => cons <= N, <<"C05">>, "Rx.ConsumedWithinBuffer")
         \cup V(np /\ N > 0 => cons >= MinI(2, N), <<"C05">>, "Rx.ConsumedProgress")
         \cup V(np /\ N >= 2 /\ AllZero(b) => (r.t = "padding" /\ cons = N), <<"C10">>, "Rx.PaddingConsumesRest")
@@ -279,6 +292,7 @@ JudgeDecapQ(e, rx, q, crc) ==
          \cup H(unknownId, "Rx.UnknownIdRejectedOwnLen")
          \cup H(pre.ok /\ post.ok /\ others # {}, "Rx.OtherContextsUntouched")
          \cup H(post.ok /\ rx.prov # {}, "Rx.Conservation") \cup H(np /\ Len(e.memops) > 0, "Rx.GiveBack")
+         \cup H(peeked /\ (hasMeta \/ pk.res.t = "fragid"), "Peek.AgreesWithDecap")
          \cup H(inj, "Rx.InjectedMemoryFailure") \cup H(inj /\ post.ok /\ Len(StashOf(post)) > 0, "Rx.Conservation.stash")
          \cup H(inj /\ outTag > 0, "Rx.GiveBack.injected")
          \cup H(isPend /\ hasMeta /\ rx.pend.kind \in {"complete", "first"}, "Rx.Attribution")
@@ -324,7 +338,7 @@ JudgeDecapQ(e, rx, q, crc) ==
                               !.open = ~(kind = "end" /\ r.t = "completed"),
                               !.done = (kind = "end" /\ r.t = "completed")]) @@ rx.ghost
         ELSE rx.ghost
-      rx2 == [rx EXCEPT !.adm = adm2, !.mem = post, !.owned = owned2, !.ghost = newGhost,
+      rx2 == [rx EXCEPT !.adm = adm2, !.mem = post, !.owned = owned2, !.ghost = newGhost, !.peek.valid = FALSE,
                         \* lock-step survives receiver-only traffic that cannot set the label memory
                         !.lock = rx.lock /\ (isPend \/ ~isStart), !.pend = IF isPend THEN NoPend ELSE rx.pend]
   IN  [ bad |-> verdicts, hits |-> hs, rx |-> rx2,
@@ -351,7 +365,7 @@ JudgePeek(e, rx) ==
   IN  [ bad |-> V(r.t # "panic", <<"C05">>, "Peek.NoPanic")
              \cup V(enc /\ fieldsFit => r = expect, <<"C19">>, "Peek.AgreesWithPacket"),
         hits |-> H(TRUE, "Peek.NoPanic") \cup H(enc /\ fieldsFit, "Peek.AgreesWithPacket"),
-        rx |-> rx,
+        rx |-> [rx EXCEPT !.peek = [valid |-> enc /\ r.t # "panic", bytes |-> b, res |-> r]],
         cls |-> <<"peek", c, h.kind, h.lt, r.t, Len(b) > (IF hOk THEN h.len + 2 ELSE 0)>> ]
 
 \* -------------------------------------------------------------- provision
